@@ -547,6 +547,46 @@ def main(a0, a1):
             k = k - 1
         return y {op2} a0
 ''', ['R', 'R']),
+    ('copy-read-only-in-while-cond', '''
+@fp.fpy
+def main(a0, a1):
+    with fp.FP64:
+        n = {n} + 2
+        bound = n
+        i = 0
+        acc = a0
+        while i < bound:
+            acc = acc {op} a1
+            n = n - 1
+            i = i + 1
+        lim = a1
+        j = 0
+        while j < lim and j < 4:
+            a1 = a1 {op2} {lit}
+            j = j + 1
+    return (acc, i, n, j, a1)
+''', ['R', 'R']),
+    ('dead-call-stores-through-rows', '''
+@fp.fpy
+def h0(p0, p1):
+    rows = [r for r in p0]
+    rows[0][1] = p1 {op} {lit}
+    return p1
+
+@fp.fpy
+def h1(p0, p1):
+    both = [p0[0], p0[1]]
+    both[1][0] = p1 {op2} {lit2}
+    return p1
+
+@fp.fpy
+def main(a0, a1):
+    m = [[a0, {lit}], [{lit2}, a1]]
+    d1 = h0(m, a1)
+    d2 = h1(m, a0)
+    t = (m, a1)
+    return (m[0][0], m[0][1], m[1][0], m[1][1])
+''', ['R', 'R']),
     ('copy-for-target', '''
 @fp.fpy
 def main(a0, a1):
